@@ -313,6 +313,8 @@ def join_pass(tier, seed):
     binp = vlib.hbin(dom_join.BIN_H3)
     n = 2 if tier == "quick" else 12
     jobs = [(binp, f"cs-join{i}", ["gen", str(seed * 1000 + 900 + i), "60" if tier == "quick" else "400", "small"], 600) for i in range(n)]
+    # ... and worlds whose indices cross 4095 / 4096 (change sets with entries on both sides of a 4096-boundary)
+    jobs += [(binp, f"cs-joinmid{i}", ["gen", str(seed * 1000 + 950 + i), "25" if tier == "quick" else "120", "mid"], 900) for i in range(1 if tier == "quick" else 4)]
     with ThreadPoolExecutor(max_workers=4) as ex:
         results = list(ex.map(dom_join.run_one, jobs))
     cs_member = re.compile(r"\b[smc\?]*[smc]1[45]\b")
